@@ -319,7 +319,7 @@ pub fn property() -> Property {
         subchecks: vec![SubCheck {
             name: "history-invariant",
             rule: "pool of 2-3 maps (map 0 always tie-heavy: >=2 distinct beat lengths with exactly equal accumulated duration, equal start times) x 3 Difficulty specs x 2 score specs x history of 6-40 ops over the public surface (decode via bytes+str, bpm x16 + fresh decode, convert by value/ref/mut, difficulty, strains, performance, gradual difficulty drain, gradual performance walk, attribute builder). Invariant: whenever an op key recurs (immediately or after ops on other maps) its canonical result is bit-identical to the first; no op modifies a map passed by reference (== against a snapshot after every op). Non-trivial: a recurrence separated by an op on another map, tie-heavy map has >=2 objects and >=2 beat lengths. The driver additionally runs the same seeded histories in two separate processes and compares digests (sub-check cross-process).",
-            quick: 3000,
+            quick: 8000,
             thorough: 60_000,
             tape_len: 2600,
             f: case,
